@@ -99,7 +99,20 @@ def main(out):
     # called directly: since the "use" validator refuses lists, import_key no longer reaches this with a list
     flags.append(probe("use_str", lambda: ECKey.binding.validate_dict_key_use_operations({"use": [], "key_ops": []}),
                        is_err(ValueError), is_err(TypeError)))
-    assert len(flags) == 19
+    # round 2: ECDH-1PU (draft) and sender keys
+    from joserfc.drafts.jwe_ecdh_1pu import register_ecdh_1pu
+    from joserfc.errors import InvalidExchangeKeyError
+    register_ecdh_1pu()
+    ec = ECKey.import_key(dict(keys["ec256"])); ecb = ECKey.import_key(dict(keys["ec256b"])); rsa = RSAKey.import_key(dict(keys["rsa"]))
+    algs = ["ECDH-1PU", "A128GCM"]
+    tok = jwe.encrypt_compact({"alg": "ECDH-1PU", "enc": "A128GCM"}, b"x", ec, algorithms=algs, sender_key=ecb)
+    flags.append(probe("1pu_sender", lambda: jwe.decrypt_compact(tok, ec, algorithms=algs), is_err(DecodeError), is_err(AssertionError)))
+    flags.append(probe("exchange_type", lambda: ec.exchange_derive_key(rsa), is_err(InvalidExchangeKeyError), is_err(AttributeError)))
+    hdr = {"alg": "ECDH-1PU", "enc": "A128GCM", "epk": {k: keys["rsa"][k] for k in ("kty", "n", "e")}}
+    tok2 = b64u(json.dumps(hdr).encode()).decode() + "." + tok.split(".", 1)[1]
+    flags.append(probe("1pu_keytype", lambda: jwe.decrypt_compact(tok2, rsa, algorithms=algs, sender_key=ecb),
+                       is_err(InvalidKeyTypeError), is_err(AttributeError)))
+    assert len(flags) == 22
     text = ("(* generated by harness/tables_c16.py from the tree under test: which guards of\n"
             "   model/C16Model.v (order of guards_list) the code has *)\n"
             "From Coq Require Import List Bool.\nImport ListNotations.\n"
